@@ -57,6 +57,15 @@ theorem conj_pair_combine [DecidableEq K] {J : K} (hJ : J * J = -1) (h20 : (1 + 
     L E (conjPair J r rc p pc T) s = E (-(s * T)) * (r / (s - p) + rc / (s - pc)) :=
   conj_pair_combine' E hJ h20 r rc p pc T s hp h1 h2
 
+/-- The whole residue loop of `ratfun` (conjugate partners searched among the later entries, combined by
+    `conjPair`, everything else synthesised directly) has the transform `e^{−sT} Σ r/(s−p)^o`, for all residue lists.
+    Depends on the GENERATED flag `Gen.conjPartnerMustBeSimple` (tx_ilt reads the partner filter from the source text):
+    with the unfiltered search of finding F21 the `rfl` below fails and this obligation breaks. -/
+theorem ratfun_loop_sound [DecidableEq K] {J : K} (hJ : J * J = -1) (h20 : (1 + 1 : K) ≠ 0) (conj : K → K) (T s : K)
+    (R : List (K × K × Nat)) (ho : ∀ x ∈ R, 0 < x.2.2) (hn : ∀ x ∈ R, s - x.2.1 ≠ 0) :
+    L E (ratfunLoop J conj T (R.length + 1) R) s = E (-(s * T)) * sumPF R s :=
+  ratfun_loop_sound' E rfl hJ h20 conj T s (R.length + 1) R (Nat.le_succ _) ho hn
+
 /-- residues by substitution, two distinct simple poles (`_find_residues_sub`): `r_i = B(p_i)/Π_{j≠i}(p_i − p_j)`.
     PARTIAL: stated for two poles and a numerator of degree ≤ 1; the general (n poles, repeated poles with the
     derivative formula) statement is replaced by running `pfCheck` on the data of every generated case. -/
